@@ -9,7 +9,7 @@ from concurrent.futures import ThreadPoolExecutor
 VERIF = os.path.dirname(os.path.dirname(os.path.abspath(__file__)))
 REPO = os.environ.get("VERIF_REPO", "/repo")
 CACHE = os.path.join(VERIF, ".cache")
-LEAN = os.path.join(VERIF, "lean")
+LEAN = os.environ.get("VERIF_LEAN", os.path.join(VERIF, "lean"))
 HARNESS = os.path.join(VERIF, "harness")
 GUARD = "-DVLM_ASN1C_VERIF"
 JOBS = int(os.environ.get("VERIF_JOBS", "16"))
